@@ -1,8 +1,7 @@
 (* C05, pointer-level heap invariant [hinv] (coq/Core/HeapInv.v) and its preservation by the
-   three kinds of step of the builder sub-language { constructors of structs and non-composite
-   lists, data writes inside an object, setting a pointer slot / the root to a table object }.
-   Statements only.  [heap_inv_partial2] = these four theorems; what is missing to lift them to
-   BuildOps op lists is listed in docs/C05.md. *)
+   three kinds of step of the builder sub-language { constructors of structs and of every list
+   kind (composite lists with their tag word), data writes inside an object, setting a pointer
+   slot / the root to a table object }, and the theorem over op lists.  Statements only. *)
 From CV Require Import Core.Builder Core.ReaderFacts Core.BuilderFacts Core.AllocProofs Core.WritePtrProofs
   Core.HeapProofs Core.BuildValid Core.HeapInv.
 Open Scope Z_scope.
@@ -14,8 +13,8 @@ Theorem C05_hinv_pointers_valid : forall m objs pads q,
   hinv m objs pads -> In q ((0, 0) :: flat_map slots objs) ->
   exists t rs, resolve_ptr (bm_data m) (fst q) (snd q) = (t, rs) /\ is_bad t = false /\
     (forall r, In r rs -> in_msg (bm_data m) r \/ r_size r = 0) /\
-    (rs = [] \/ exists ps r, rs = ps ++ [r] /\ incl ps pads /\
-        (r_size r = 0 \/ exists h, In h objs /\ r = obj_reg h /\ t = tgt_of h)).
+    (rs = [] /\ no_tag t \/ exists ps r, rs = ps ++ [r] /\ incl ps pads /\
+        (r_size r = 0 /\ no_tag t \/ exists h, In h objs /\ r = obj_reg h /\ t = tgt_of h)).
 Proof. exact hinv_pointers_valid. Qed.
 Print Assumptions C05_hinv_pointers_valid.
 
@@ -23,19 +22,20 @@ Print Assumptions C05_hinv_pointers_valid.
 Theorem C05_hinv_add_object : forall m objs pads m' h,
   hinv m objs pads ->
   keeps m m' Rnone -> inv m' -> segs_small m' -> nsegs m <= nsegs m' -> nsegs m' < 4294967296 ->
-  p_valid h = true -> good (bm_data m') h ->
-  (r_size (obj_reg h) = 0 \/ zlen (mem m (p_seg h)) <= p_off h) ->
+  p_valid h = true -> good (bm_data m') h -> tag_ok (bm_data m') h ->
+  (r_size (obj_reg h) = 0 \/ zlen (mem m (p_seg h)) <= obj_start h) ->
   (forall q, In q (slots h) -> word_at (bm_data m') (fst q) (snd q) = Some 0) ->
   hinv m' (objs ++ [h]) pads.
 Proof. exact hinv_add_obj. Qed.
 Print Assumptions C05_hinv_add_object.
 
-(* a data setter: a write inside the data part of one table object *)
+(* a data setter: a write inside one table object, behind its tag word and beside its pointer
+   slots (the elements of a composite list interleave data and pointer sections) *)
 Theorem C05_hinv_data_write : forall m objs pads m' h addr bs,
   hinv m objs pads -> In h objs -> 0 <= p_seg h ->
   wrote m m' (p_seg h) addr bs ->
-  p_off h <= addr -> addr + zlen bs <= p_off h + r_size (obj_reg h) ->
-  (forall q, In q (slots h) -> addr + zlen bs <= snd q) ->
+  p_off h <= addr -> addr + zlen bs <= obj_start h + r_size (obj_reg h) ->
+  (forall q, In q (slots h) -> addr + zlen bs <= snd q \/ snd q + 8 <= addr) ->
   hinv m' objs pads.
 Proof. exact hinv_data_write. Qed.
 Print Assumptions C05_hinv_data_write.
@@ -48,7 +48,7 @@ Theorem C05_hinv_set_pointer : forall m objs pads w q ht raw w',
   In q ((0, 0) :: flat_map slots objs) -> In ht objs ->
   (p_kind ht = KStruct -> os_isZero (p_size ht) = false) ->
   raw_of ht = Ok raw ->
-  place w (fst q) (snd q) (p_seg ht) (p_off ht) raw = Ok w' ->
+  place w (fst q) (snd q) (p_seg ht) (obj_start ht) raw = Ok w' ->
   nsegs (w_dst w') < 4294967296 ->
   exists pads', hinv (w_dst w') objs (pads ++ pads').
 Proof. exact hinv_place. Qed.
@@ -67,11 +67,12 @@ Theorem C05_hinv_valid : forall m objs pads, hinv m objs pads -> valid_message (
 Proof. exact hinv_valid. Qed.
 Print Assumptions C05_hinv_valid.
 
-(* every step of the sub-language keeps "pool = table" and the invariant *)
-Theorem C05_step_hinv : forall e st pads o st' out,
-  sinv st pads -> sub_op o = true -> bstep e st o = (Some st', out) ->
+(* every step of the sub-language keeps the invariant and "every valid pool handle is a view of
+   the object table" *)
+Theorem C05_step_hinv : forall e st objs pads o st' out,
+  sinv st objs pads -> sub_op o = true -> plain_src st o -> bstep e st o = (Some st', out) ->
   nsegs (w_dst (st_w st')) < 4294967296 ->
-  exists pads', sinv st' pads'.
+  exists objs' pads', sinv st' objs' pads'.
 Proof. exact bstep_hinv. Qed.
 Print Assumptions C05_step_hinv.
 
@@ -81,6 +82,7 @@ Print Assumptions C05_step_hinv.
 Theorem C05_heap_inv_sublang : forall a cfgd cfgs ncaps fuel src ops m,
   arena_spec_wf a -> root_cap_ok a -> create a (init_rlimit cfgd) = Ok m -> sub_prog ops = true ->
   let st0 := mkBSt (mkW m src (init_rlimit cfgs)) [] in
+  plain_run (mkEnv cfgd cfgs ncaps fuel) st0 ops ->
   Forall seg_bound (bstates (mkEnv cfgd cfgs ncaps fuel) st0 ops) ->
   Forall (fun st => valid_message (bm_data (w_dst (st_w st))) = VOk) (bstates (mkEnv cfgd cfgs ncaps fuel) st0 ops).
 Proof. exact heap_inv_sublang_valid. Qed.
@@ -90,3 +92,14 @@ Theorem C05_sublang_example :
   sub_prog [BNewStruct 0 0 1; BNewStruct 1 8 0; BSetUint 1 0 8 258; BSetPtr 0 0 1; BSetRoot 0] = true /\
   arena_spec_wf (ArRaw [24; 16]) /\ root_cap_ok (ArRaw [24; 16]).
 Proof. exact sublang_example. Qed.
+
+(* non-vacuity of the extended sub-language: NewCompositeList, List.Struct member used as data
+   and pointer container, PointerList.Set, typed setter on the composite list, SetRoot; all
+   premises of C05_heap_inv_sublang hold for this program and the computed verdicts agree *)
+Theorem C05_sublang_example2 :
+  create (ArMulti None) (init_rlimit (mkCfg 0 0 true true)) = Ok ex2_m /\
+  sub_prog ex2_ops = true /\
+  plain_run ex2_env ex2_st0 ex2_ops /\
+  Forall seg_bound (bstates ex2_env ex2_st0 ex2_ops) /\
+  map (fun st => valid_message (bm_data (w_dst (st_w st)))) (bstates ex2_env ex2_st0 ex2_ops) = repeat VOk 12.
+Proof. exact sublang_example2. Qed.
